@@ -293,6 +293,18 @@ class Engine:
                 except Exception:
                     out[d.name()] = str(v)
         return out
+    def unique_value(self, term):
+        """python int if the path condition determines the value of a BV term, else None"""
+        c = conc(z3.simplify(term)) if not isinstance(term, int) else term
+        if c is not None:
+            return c
+        if not self.sat():
+            return None
+        v = self.solver.model().eval(term, model_completion=True)
+        if self.sat(term != v):
+            return None
+        return v.as_long()
+
     def model_eval(self, term):
         m = self.solver.model()
         return m.eval(term, model_completion=True)
